@@ -1,1 +1,1 @@
-// hooks for src/connection.rs
+// hooks for src/connection.rs (none needed yet)
